@@ -63,6 +63,30 @@ def run_symplectic_gs(ctx, quick):
             ctx.violation('X01:schmidt_orthogonalization:exception', type(ex).__name__ + ': ' + str(ex)[:160], data)
 
 
+def run_pauli_orbit(ctx, quick):
+    """orbits of sets of two-qubit Paulis under the Clifford group: TLC enumerates Sp(4,F2) by brute force and forms the orbit"""
+    import numqi
+    from ..qsim import setof
+    r = tlc.run('extra/MC_PauliOrbit.tla', 'extra/MC_PauliOrbit.cfg', dump=True, timeout=1200)
+    ctx.add_model('MC_PauliOrbit(n=2)', r)
+    states = list(tlc.parse_dump(r))
+    if quick:
+        states = sorted(states, key=lambda st: sorted(setof(st['subset'])))[::3]
+    for st in states:
+        sub = tuple(sorted(setof(st['subset'])))
+        orb = st['orbit']
+        want = {tuple(sorted(setof(t))) for t in (orb[1] if isinstance(orb, tuple) else orb)}
+        ctx.case(('orbit', sub))
+        try:
+            got = numqi.gate.get_pauli_subset_equivalent(sub, 2)
+            got = {tuple(int(x) for x in t) for t in got}
+            if got != want:
+                ctx.violation('X01:get_pauli_subset_equivalent:orbit', 'orbit of the subset differs from its orbit under Sp(4,F2) (missing %d, extra %d)' % (len(want - got), len(got - want)), dict(subset=list(sub)))
+            ctx.traces += 1
+        except Exception as ex:
+            ctx.violation('X01:get_pauli_subset_equivalent:exception', type(ex).__name__ + ': ' + str(ex)[:160], dict(subset=list(sub)))
+
+
 def run_pauli_exponential(ctx):
     """exp(i a n.sigma) on the axis grid: a in multiples of pi/4, n along +-x, +-y, +-z - the closed form cos a + i sin a n.sigma
     (a two-line specification; the exact values are in Z[w]/sqrt2)"""
@@ -85,12 +109,13 @@ def run_pauli_exponential(ctx):
 def run(ctx):
     quick = ctx.tier == 'quick'
     ctx.rule = ('beyond the listed properties: Weyl-Heisenberg matrices d = 2, 4, 8 (commutation, order, Fourier relation as TLC invariants); symplectic Gram-Schmidt over F2 for every list of '
-                '%d vectors of F2^4 (number of hyperbolic pairs = rank of the Gram matrix / 2, computed by TLC); Pauli exponential on the axis grid' % (4 if quick else 5))
+                '%d vectors of F2^4 (number of hyperbolic pairs = rank of the Gram matrix / 2, computed by TLC); Pauli exponential on the axis grid; orbits of two-qubit Pauli subsets under the Clifford group' % (4 if quick else 5))
     ctx.assumptions = ['TLC/SANY correct', 'tolerance 1e-9']
     ctx.not_covered = ['everything else outside C01..C20 (optimisers, maximum entropy, unique determination, query algorithms, optimal control)']
     run_qudit(ctx)
     run_symplectic_gs(ctx, quick)
     run_pauli_exponential(ctx)
+    run_pauli_orbit(ctx, quick)
     ctx.sample(dict(kind='extra-models', models=[m['model'] for m in ctx.models]))
 
 
